@@ -329,7 +329,12 @@ func (r *run) EvaluateTemplateText(template string, escaping excellent.Escaping,
 		log(events.NewWarning(w))
 	}
 	if truncate {
-		value = stringsx.TruncateEllipsis(value, r.Session().Engine().Options().MaxTemplateChars)
+		maxChars := r.Session().Engine().Options().MaxTemplateChars
+		if maxChars >= 3 {
+			value = stringsx.TruncateEllipsis(value, maxChars)
+		} else {
+			value = stringsx.Truncate(value, maxChars) // no room for an ellipsis
+		}
 	}
 	return value, err == nil
 }
